@@ -126,6 +126,13 @@ def draw_job(rng: random.Random, prop: str, opts) -> dict:
   }
   # some runs live on a padded modal layout from the start (structural zeros in
   # the padding are then monitored on every state of the run)
+  job['long'] = rng.random() < float(opts.get('p_long', 0.0))
+  if job['long']:
+    # long histories: gentle amplitude and at least one scale-selective filter so
+    # that the run stays physically stable for ~150 steps
+    job['amp'] = 0.3
+    if not any(f['kind'] in ('exp', 'hdiff') for f in job['filters']):
+      job['filters'].insert(0, {'kind': 'exp', 'order': 6, 'cutoff': 0, 'tau': 0.010938})
   job['oro_unclipped'] = rng.random() < 0.5
   job['layout0'] = {}
   if prop in ('C11', 'C07') and impl != 'real' and rng.random() < 0.4:
@@ -1210,6 +1217,9 @@ def draw_events(rng: random.Random, job, prop, n_events, opts) -> list:
   steps_budget = int(opts.get('max_steps', 36))
   if not job['filters']:
     steps_budget = min(steps_budget, 14)
+  big = bool(job.get('long'))
+  if big:
+    steps_budget = int(opts.get('long_steps', 160))
   used = 0
   prev = 'CHECKPOINT'
   while len(events) < n_events:
@@ -1220,8 +1230,8 @@ def draw_events(rng: random.Random, job, prop, n_events, opts) -> list:
       k = rng.choices(kinds, weights)[0]
     ev = {'k': k}
     if k == 'ADVANCE':
-      outer = rng.randint(1, 4)
-      inner = rng.randint(1, 3)
+      outer = rng.randint(1, 8 if big else 4)
+      inner = rng.randint(1, 6 if big else 3)
       if used + outer * inner > steps_budget:
         outer, inner = 1, 1
         if used + 1 > steps_budget:
